@@ -1,15 +1,15 @@
-SPECIFICATION PSpec
+SPECIFICATION Spec
 CONSTANTS
-  TreeSet = {}
-  OptSet = {}
-  MaxBackups = 0
+  TreeSet <- Trees2
+  OptSet <- OptsA
+  MaxBackups = 2
   MaxDeletes = 0
   MaxFaults = 0
-  AllowCrash = FALSE
+  AllowCrash = TRUE
   AllowEmptyLeftover = FALSE
   CombinerClearsQueueOnFailedFlush = TRUE
+  Hash <- HashId
   ReaderReportsHunks = TRUE
   GcStopsOnUnreadableHunk = TRUE
-  Hash <- HashT
-INVARIANT Report
+INVARIANTS Inv_ValidateQuietOnHealthy Inv_ValidateAdequate
 CHECK_DEADLOCK FALSE
